@@ -63,6 +63,7 @@ WriteA(p, d, a)          == [k |-> "write", path |-> p, data |-> d, append |-> a
 ExprS(e)                 == [k |-> "expr", e |-> e]
 Param(n, ty)             == [name |-> n, ty |-> ty]
 Func(n, ps, rs, b)       == [k |-> "func", name |-> n, params |-> ps, results |-> rs, body |-> b]
+FuncBare(n, rs, b)       == [k |-> "func", name |-> n, params |-> <<>>, results |-> rs, body |-> b, bare |-> TRUE]   \* written "func n [type] {" (no brackets)
 
 ProgOf(body) == [body |-> body]
 CaseOf(id, body) == [id |-> id, prog |-> ProgOf(body)]
